@@ -19,7 +19,7 @@ func New{{.FieldType}}(read func(r {{.StructType}}) {{.TypeName}}, write func(r 
 }
 
 func (f *{{.FieldType}}) Schema() parquet.Field {
-	return parquet.Field{Name: f.Name(), Path: f.Path(), Type: {{.ParquetType}}, RepetitionType: parquet.RepetitionRequired, Types: []int{0}}
+	return parquet.Field{Name: f.Name(), Path: f.Path(), Type: {{.ParquetType}}, RepetitionType: parquet.RepetitionRequired, Types: make([]int, len(f.Path()))}
 }
 
 func (f *{{.FieldType}}) Read(r io.ReadSeeker, pg parquet.Page) error {
